@@ -101,11 +101,13 @@ class PropertyRun:
 
     # ---------------------------------------------------------------- traces
     def validate(self, module, events, name=None, cfg=None, chunks=1, env=None, timeout=900, heap="2g",
-                 one_trace_per_chunk=False, count_traces=None):
+                 groups=None, count_traces=None):
         """Validate events (list of dicts; key '_m' = python-side metadata, not sent to TLC)
         against trace spec `module`.  Returns list of (clause, event) failures not explained by a
         known finding."""
         name = name or module
+        if groups is not None:
+            events = [e for g in groups for e in g]
         if not events:
             raise tlc.MachineryError(f"{name}: empty trace (vacuous check)")
         for e in events:
@@ -117,15 +119,17 @@ class PropertyRun:
         if len(self.samples) < 6:
             for e in events[:: max(1, len(events) // 2)][:2]:
                 self.samples.append({"trace": name, "event": e.get("_m", {a: b for a, b in e.items() if a != "_m"})})
-        chunks = max(1, min(chunks, len(events)))
-        size = (len(events) + chunks - 1) // chunks
+        if groups is not None:
+            parts = [g for g in groups if g]
+        else:
+            chunks = max(1, min(chunks, len(events)))
+            size = (len(events) + chunks - 1) // chunks
+            parts = [events[c * size:(c + 1) * size] for c in range(chunks)]
+            parts = [p for p in parts if p]
         tmp = tempfile.mkdtemp(prefix=f"nsv-{self.pid}-")
         jobs, spans = [], []
         try:
-            for c in range(chunks):
-                part = events[c * size:(c + 1) * size]
-                if not part:
-                    continue
+            for c, part in enumerate(parts):
                 path = os.path.join(tmp, f"{name}.{c}.ndjson")
                 with open(path, "w") as f:
                     for e in part:
@@ -133,7 +137,7 @@ class PropertyRun:
                 ee = {"TRACE_FILE": path}
                 ee.update(env or {})
                 jobs.append(dict(module=module, cfg=cfg, env=ee, workers=1, timeout=timeout, heap=heap))
-                spans.append((c * size, part))
+                spans.append((c, part))
             results = tlc.run_many(jobs)
         finally:
             shutil.rmtree(tmp, ignore_errors=True)
